@@ -103,6 +103,22 @@ def case_function(h, N, P, NSIG, n, method, cplx):
         h.claim_le("denominator %d >= 0" % a, 0, den)
 
 
+def case_fb_large(h, N, P, cplx):
+    """long data: eigen() uses at most 100 forward and 100 backward rows; they must still be the first rows of the
+    forward-backward data matrix (entries are linear in the data, so this is cheap at any length)"""
+    S_ = sp()
+    x = h.vec('x', N, cplx)
+    (psd, sv), FB, S, Vh = run_with_svd_capture(h, lambda: S_.eigen(x, P, NSIG=1, method='music', NFFT=4))
+    NP = min(N - P, 100)
+    if tuple(FB.shape) != (2 * NP, P):
+        h.fail("FB shape", "%r expected %r" % (tuple(FB.shape), (2 * NP, P)))
+        return
+    for i in range(NP):
+        for k in range(P):
+            h.claim_eq("FB[%d,%d] forward" % (i, k), FB[i, k], x[i - k + P - 1])
+            h.claim_eq("FB[%d,%d] backward" % (i + NP, k), FB[i + NP, k], conj(x[i + k + 1]))
+
+
 def case_class(h, name, cplx, N, P, NSIG, n):
     S_ = sp()
     x = h.vec('x', N, cplx)
@@ -204,6 +220,9 @@ def cases(tier, seed):
             for n in ((4, 5) if q else (4, 5, 6, 8)):
                 out.append(Case("class:%s:%s:N=4:P=2:NSIG=1:NFFT=%d" % (name, 'cx' if cplx else 're', n), case_class,
                                 dict(name=name, cplx=cplx, N=4, P=2, NSIG=1, n=n), **T))
+    for (N, P, cplx) in ([(104, 3, True)] if q else [(104, 3, True), (110, 2, False), (99, 3, True)]):
+        out.append(Case("FB-rows:long-data:%s:N=%d:P=%d" % ('cx' if cplx else 're', N, P), case_fb_large,
+                        dict(N=N, P=P, cplx=cplx), timeout=60, wall=600))
     for P in ((2, 3) if q else (2, 3, 4)):
         out.append(Case("threshold-rule:P=%d" % P, case_threshold, dict(P=P), timeout=60, max_paths=64, feas_timeout=5))
     return out
